@@ -5,6 +5,12 @@
      EVS | TRS                  -> all rows (nil filter)
      FE desc hasrange from to haspage off lim ncrit (addr|- t0|- t1|- t2|- t3|- t4|-)*
      FT desc hasrange from to haspage off lim ncrit (origin|- sender|- recipient|-)*
+     DBRESET                    -> ok                            (empty tables; the repository stays)
+     DBW id                     -> ok | err | missing            (Writer.Write of a stored block into the tables)
+     DBT n                      -> ok | err                      (Writer.Truncate)
+     SEEK                       -> ok:<pos> | err                (seekLogDBSyncPosition)
+     VERIFY end                 -> ok | err                      (verifyLogDB)
+     SYNC verify                -> ok | err                      (syncLogDB; the tables are replaced on ok)
    BLOCK as in the C09 driver.  Rows: blocknum,txindex,logindex,blockid,time,txid,origin,clause,... ; '|' separated *)
 open Model
 open Wire
@@ -75,6 +81,18 @@ let handle line =
     let o = p_opts () in let n = cnt () in
     let cs = times n (fun () -> let a = opt () in let b = opt () in let c = opt () in { tc_origin = a; tc_sender = b; tc_recipient = c }) in
     (match filter_transfers !db_st cs o with Some l -> rows show_tr l | None -> "err")
+  | "DBRESET" -> db_st := empty_db; "ok"
+  | "DBW" ->
+    let id = nx () in
+    (match get_block (st ()) id with
+     | Some (_, b) -> (match write_block b !db_st with Some db -> db_st := db; "ok" | None -> "err")
+     | None -> "missing")
+  | "DBT" -> let n = nx () in (match truncate n !db_st with Some db -> db_st := db; "ok" | None -> "err")
+  | "SEEK" -> (match seek_position (st ()) !db_st with Ok p -> "ok:" ^ h p | _ -> "err")
+  | "VERIFY" -> let e = nx () in if verify_logdb (st ()) !db_st e then "ok" else "err"
+  | "SYNC" ->
+    let v = bool_of_tok (next ()) in
+    (match sync_logdb_v v (st ()) !db_st with Some db -> db_st := db; "ok" | None -> "err")
   | c -> failwith ("unknown command " ^ c)
 
 let () = iter_lines handle
